@@ -41,6 +41,14 @@ Inductive cmd :=
 | CCFor (e2 e3 : option expr) (body : option stmt) (env0 : nat)
 | CDefers (ds : list dcall) (err0 : option err).              (* the loop of runDefers *)
 
+(* isPlaceExpr: an expression that names something one can assign to *)
+Fixpoint is_place_expr (e : expr) : bool :=
+  match e with
+  | EIdent _ | EMember _ _ | EItem _ _ | EDeref _ => true
+  | EParen x => is_place_expr x
+  | _ => false
+  end.
+
 Section Model.
 Variable orc : oracle.
 Variable cancel_at : option nat.     (* the first context poll that sees Done *)
@@ -582,13 +590,16 @@ Definition invoke_expr (e : expr) (s : rstate) : outcome :=
 (* ------------------------------------------------------------------ *)
 (* vmLetExpr.go                                                         *)
 
-(* invokeLetItemSlice *)
+(* invokeLetItemSlice.  A store at index len appends and assigns the grown slice back through the item
+   expression; when that expression is nothing one can assign to (a call, a slice expression) the
+   assignment is attempted - and fails - before the append writes into capacity shared with other slices *)
 Definition let_item_slice (item_expr : expr) (l off len cap : nat) (idx value : value) (s : rstate) : outcome :=
   tri_bind (try_to_int idx) (fun z =>
     if (z =? Z.of_nat len)%Z then
-      match append_value (r_st s) l off len cap value with
+      do s0 <- (if is_place_expr item_expr then Ok s else rec (CLet item_expr) (set_rv s (Imm (VSlice l off len cap))));
+      match append_value (r_st s0) l off len cap value with
       | Some (st', sl) =>
-          do s1 <- rec (CLet item_expr) (set_rv (set_st s st') (Imm sl));
+          do s1 <- rec (CLet item_expr) (set_rv (set_st s0 st') (Imm sl));
           match sl with
           | VSlice l' off' _ _ => Ok (set_rv s1 (Place l' (off' + len)))
           | _ => Abort (APanic "unreachable")
